@@ -226,10 +226,15 @@ func (v *Verifier) findPackage(from *types.Package, name string) *types.Package 
 		if from.Name() == name {
 			return from
 		}
+		// several imports may share a package name (encoding/json and go-jose's json): the shortest path wins
+		var bestImp *types.Package
 		for _, imp := range from.Imports() {
-			if imp.Name() == name {
-				return imp
+			if imp.Name() == name && (bestImp == nil || len(imp.Path()) < len(bestImp.Path())) {
+				bestImp = imp
 			}
+		}
+		if bestImp != nil {
+			return bestImp
 		}
 	}
 	cands := v.byName[name]
@@ -629,6 +634,21 @@ func (v *Verifier) generate(bc *BoundContract) *FuncResult {
 				rv = &Val{Fs: results}
 			}
 			bc.bindResults(post, rv)
+			// ghost assignments of the function's own contract take effect at the return (ghost code)
+			for _, cl := range bc.C.Clauses {
+				if cl.Kind != "sets" {
+					continue
+				}
+				oenv := *post
+				oenv.st = c.entry
+				val, err := oenv.eval(cl.Exprs[1])
+				if err == nil {
+					err = c.assign(post, cl.Exprs[0], val, s)
+				}
+				if err != nil {
+					c.unsup = append(c.unsup, fmt.Sprintf("%s: sets: %v", cl.Pos, err))
+				}
+			}
 			for _, cl := range bc.C.Clauses {
 				if cl.Kind != "ensures" {
 					continue
@@ -870,6 +890,18 @@ func (c *Ctx) frameTargets(env *Env, x Expr, out map[string][]*Term) {
 				}
 				if pt, ok := p.Typ.Underlying().(*types.Pointer); ok {
 					fieldsOf(pt.Elem(), p.T)
+				}
+				return
+			case "cell":
+				// cell(x): the captured variable x of a function literal (the cell shared with the enclosing function)
+				if id, ok := n.Args[0].(*EIdent); ok {
+					if fv, ok := env.free[id.Name]; ok && fv.T != nil {
+						if pt, ok := fv.Typ.Underlying().(*types.Pointer); ok {
+							if es, ok := sortOf(pt.Elem()); ok {
+								add("P:"+typeKey(pt.Elem()), ArrSort(SV, es), fv.T)
+							}
+						}
+					}
 				}
 				return
 			case "deref":
